@@ -39,6 +39,8 @@ class Ctx:
         self.traces = 0
         self.samples = []
         self.notes = []
+        self.worst = {}          # reason code -> largest error/tolerance seen (headroom)
+        self.family, self.tracespec, self.env_flags = "", "", {}
 
     def quick(self):
         return self.tier == "quick"
@@ -85,6 +87,43 @@ def run_mc(ctx, module, cfg, workers=8, timeout=1500, heap="8g", expect_violatio
     return res
 
 
+def tlc_generate(ctx, module, cfg_text, name, timeout=600, heap="6g", workers=4):
+    """run a generator configuration; returns the list of behaviours (each a list of abstract operations) that TLC
+    printed from its state constraint - one per generated edge of the abstract state graph"""
+    cfg = "_gen_%s_%d.cfg" % (name, os.getpid())
+    with open(os.path.join(SPEC, cfg), "w") as f:
+        f.write(cfg_text)
+    md = os.path.join(ctx.work, "gen-" + name)
+    os.makedirs(md, exist_ok=True)
+    outp = os.path.join(ctx.work, "gen-%s.out" % name)
+    cmd = tlc_cmd(["-Xmx" + heap]) + ["-workers", str(workers), "-metadir", md, "-config", cfg, module + ".tla"]
+    try:
+        with open(outp, "w") as fo:
+            rc = subprocess.run(cmd, cwd=SPEC, stdout=fo, stderr=subprocess.STDOUT, timeout=timeout).returncode
+    except subprocess.TimeoutExpired:
+        rc = 124
+    finally:
+        os.remove(os.path.join(SPEC, cfg))
+        shutil.rmtree(md, ignore_errors=True)
+    scripts = []
+    tail = ""
+    for line in open(outp, errors="replace"):
+        if line.startswith('<<"SCRIPT", '):
+            body = line.strip()[len('<<"SCRIPT", '):-2]
+            try:
+                scripts.append(json.loads(json.loads(body)))
+            except Exception:
+                pass
+        else:
+            tail = (tail + line)[-1500:]
+    if rc != 0 or not scripts:
+        ctx.infra.append("generator %s/%s failed (rc=%s): %s" % (module, name, rc, tail))
+    m = re.search(r"(\d+) states generated, (\d+) distinct states found", tail)
+    ctx.mc.append({"module": module, "cfg": "generator:" + name, "generated": int(m.group(1)) if m else 0, "distinct": int(m.group(2)) if m else 0,
+                   "rc": rc, "violated": False, "completed": rc == 0, "wall_s": 0, "never_taken": [], "scripts": len(scripts)})
+    return scripts
+
+
 # ------------------------------------------------------------------ replay + trace validation
 def replay_and_validate(ctx, exe, batches, tracespec, env_flags, label="b", jobs=16, tlc_timeout=1700, heap="3g"):
     """batches: list of lists of script commands (each batch = several executions separated by reset).
@@ -121,6 +160,11 @@ def replay_and_validate(ctx, exe, batches, tracespec, env_flags, label="b", jobs
         for k, v in r["stats"].items():
             if isinstance(v, int):
                 ctx.stats[k] = ctx.stats.get(k, 0) + v
+        for k, v in (r.get("worst") or {}).items():
+            try:
+                ctx.worst[k] = max(ctx.worst.get(k, 0.0), float(v))
+            except ValueError:
+                pass
         cases = None
         for d in r["bad"]:
             d["batch"] = r["i"]
@@ -160,7 +204,7 @@ def validate_trace(ctx, tracespec, trace, outj, env_flags, timeout=1700, heap="3
             return validate_trace(ctx, tracespec, trace, outj, env_flags, timeout, heap, retry=False)
         return {"infra": "TLC could not validate %s with %s (rc=%s): %s" % (trace, tracespec, rc, out[-1500:])}
     d = json.load(open(outj))
-    return {"bad": d["bad"], "stats": d["stats"]}
+    return {"bad": d["bad"], "stats": d["stats"], "worst": d.get("worst", {})}
 
 
 # ------------------------------------------------------------------ known findings, verdict, evidence
@@ -277,7 +321,7 @@ def finish(ctx, level, rule, trusted, assumptions, props_judged=None, extra_cov=
            "distinct_nontrivial": max(2, ctx.traces),
            "rule": rule, "trusted_base": trusted,
            "model_checking_runs": [{k: r[k] for k in ("module", "cfg", "generated", "distinct", "completed", "violated", "wall_s", "never_taken")} | ({"broken_twin_rejected": r["violated"]} if r.get("expect_violation") else {}) for r in ctx.mc],
-           "trace_stats": ctx.stats, "known_finding_matches": {k: v[1] for k, v in known.items()},
+           "trace_stats": ctx.stats, "largest_error_over_tolerance": {k: float("%.3g" % v) for k, v in sorted(ctx.worst.items())}, "known_finding_matches": {k: v[1] for k, v in known.items()},
            "infrastructure_failures": len(ctx.infra), "exhaustive": False}
     if extra_cov:
         cov.update(extra_cov)
